@@ -173,5 +173,10 @@ func (t *table[E]) resultsTable() [][]frontend.Variable {
 }
 
 func (t *table[E]) commit(api frontend.API) error {
+	if len(t.results) == 0 {
+		// no lookups were performed: there is nothing to prove (and the
+		// log-derivative argument requires at least one query).
+		return nil
+	}
 	return logderivarg.Build(api, t.entryTable(), t.resultsTable())
 }
